@@ -219,6 +219,9 @@ def run(ctx):
     frag = _render_stream(ctx)
     frag_tls = _render_tls_stream(ctx)
 
+    ctx.dependency("C15", "every split_clients percentage the generator prints is a well-formed, non-negative value and each "
+                          "block sums to 100 (the arithmetic of createSplitClientDistributions is C15's subject)")
+
     ctx.finish({
         "evaluations": evaluated,
         "distinct_nontrivial": len(distinct),
